@@ -1,5 +1,6 @@
 import ColoVerif.Model.Transp
 import ColoVerif.Model.TranspCert
+import ColoVerif.Model.TranspFloat
 import Driver.Common
 /-
 Driver for C13: replays the harness' operations on the TransportationProblem model.
@@ -8,8 +9,11 @@ Driver for C13: replays the harness' operations on the TransportationProblem mod
   caps c0 c1 …      -> (nothing)
   dems d0 d1 …      -> (nothing)
   irow c0 c1 …      -> (nothing)            one row of integer costs (one per sink)
-  frow b0 b1 …      -> (nothing)            one row of float costs, each as the bits of (double)cost
-  build             -> costs r0 | r1 | …    constructor (`throw:runtime_error` if check() throws)
+  frow b0 b1 …      -> (nothing)            one row of float costs, each as the bits of (double)cost (decoded
+                                            exactly to a rational; inf/NaN patterns make `build` answer bad-float)
+  build             -> costs r0 | r1 | …    constructor (`throw:runtime_error` if check() throws); float costs:
+                                            `costsFromFloats` (explicit binary64 rounding over Rat), followed by
+                                            `fdomain ok|outside` (floatCostsOk, the hypothesis of costsFromFloats_bound)
   inc               -> caps c0 c1 …         increaseCapacity()
   arow a0 a1 …      -> (nothing)            one row for setAllocations
   setalloc          -> setalloc ok | throw:runtime_error
@@ -23,7 +27,7 @@ structure DS where
   caps : List Int := []
   dems : List Int := []
   irows : List (List Int) := []
-  frows : List (List Float) := []
+  frows : List (List Nat) := []
   arows : List (List Int) := []
   pb : Problem := default
 
@@ -36,13 +40,20 @@ def step (s : DS) : List String → DS × List String
   | "caps" :: ws => ({ s with caps := ints ws }, [])
   | "dems" :: ws => ({ s with dems := ints ws }, [])
   | "irow" :: ws => ({ s with irows := s.irows ++ [ints ws] }, [])
-  | "frow" :: ws => ({ s with frows := s.frows ++ [ws.map (fun w => Float.ofBits (nat! w).toUInt64)] }, [])
+  | "frow" :: ws => ({ s with frows := s.frows ++ [ws.map nat!] }, [])
   | "arow" :: ws => ({ s with arows := s.arows ++ [ints ws] }, [])
   | ["build"] =>
-    let costs := if s.frows.isEmpty then s.irows else costsFromFloats s.frows
-    let pb := Problem.make s.caps s.dems costs
-    if pb.check then ({ s with pb := pb }, ["costs " ++ showMat pb.costs])
-    else ({ s with pb := pb }, ["throw:runtime_error"])
+    if s.frows.isEmpty then
+      let pb := Problem.make s.caps s.dems s.irows
+      if pb.check then ({ s with pb := pb }, ["costs " ++ showMat pb.costs])
+      else ({ s with pb := pb }, ["throw:runtime_error"])
+    else if !(s.frows.all (fun r => r.all finiteBits64)) then (s, ["bad-float"])
+    else
+      let fc := s.frows.map (fun r => r.map ratOfBits64)
+      let pb := Problem.makeFloat s.caps s.dems fc
+      if pb.check then
+        ({ s with pb := pb }, ["costs " ++ showMat pb.costs, if floatCostsOk fc then "fdomain ok" else "fdomain outside"])
+      else ({ s with pb := pb }, ["throw:runtime_error"])
   | ["inc"] =>
     let pb := s.pb.increaseCapacity
     ({ s with pb := pb }, ["caps " ++ showInts pb.capacities])
